@@ -183,7 +183,7 @@ ResetClauses(T, prev, ev, post) ==
   \cup If(post.subs # prev.subs, {C("C10:subscribers-changed")})
   \cup StateClauses(T.inst, T.filt, post)
   \cup ObsListDiff("D:drift-reset", ResetAllG(T.inst, InitState(T.inst), T.filt, prev.obs, "deps_first"), post.obs)
-  \cup (IF T.featcheck THEN ObsListDiff("C12:reset-differs-from-fresh", T.fresh_obs, post.obs) ELSE {})
+  \cup (IF T.freshcheck THEN ObsListDiff("C12:reset-differs-from-fresh", T.fresh_obs, post.obs) ELSE {})
   \cup ObsStateClauses(T, post, ResetAllG(T.inst, InitState(T.inst), T.filt, prev.obs, "deps_first"))
 
 QueryClauses(T, prev, ev, post) ==
@@ -484,6 +484,7 @@ IterClauses(T, prev, ev, post) ==
        If(ev.out # "ok", {Tag("C19:iteration-raised", ev.out)})
   \cup If(ev.out = "ok" /\ ((\E i \in DOMAIN ev.counts : ev.counts[i] # ev.limit) \/ ev.len # ev.limit),
           {C("C19:iteration-count")})
+  \cup If(~NoDup(ev.names), {C("C19:name-reused")})
 CoverageClauses(T, prev, ev, post) ==
        If(Rng(ev.seen) # 1..ev.M, {Tag("C19:machines-not-drawn-from-all", <<ev.M, ev.k>>)})
 
@@ -507,6 +508,13 @@ FramesClauses(T, prev, ev, post) ==
     IF ev.out # "ok" THEN {Tag("C20:animation-raised", ev.out)}
     ELSE   If(Len(ev.ks) # ev.n, {Tag("C20:frame-count", ev.n)})
       \cup If(Len(ev.ks) = ev.n /\ ev.ks # [i \in 1..ev.n |-> i], {Tag("C20:frame-order", ev.n)})
+
+CreateOrGetCondClauses(T, prev, ev, post) ==
+    LET P(x) == x.t = ev.cls /\ "f" \in DOMAIN x /\ Rng(ev.need) \subseteq DOMAIN x.f
+        i == FirstIdx(prev.obs, P)
+    IN If(ev.out # "ok", {Tag("C10:create-or-get-raised", ev.out)})
+  \cup If(ev.out = "ok" /\ i # 0 /\ (ev.res # i \/ Len(post.obs) # Len(prev.obs)), {Tag("C10:create-or-get", ev.cls)})
+  \cup If(ev.out = "ok" /\ i = 0 /\ (Len(post.obs) <= Len(prev.obs) \/ ev.res <= Len(prev.obs)), {Tag("C10:create-or-get-did-not-create", ev.cls)})
 
 KindsOf(kinds, subs) == [i \in DOMAIN subs |-> IF subs[i] = 0 THEN "other" ELSE kinds[subs[i]]]
 
@@ -571,6 +579,7 @@ DClauses(T, l, prev, post) ==
            [] ev.a = "Replay"      -> ReplayClauses(T, prev, ev, post)
            [] ev.a = "Create"      -> CreateClauses(T, prev, ev, post)
            [] ev.a = "Unsub"       -> UnsubClauses(T, prev, ev, post)
+           [] ev.a = "CreateOrGetCond" -> CreateOrGetCondClauses(T, prev, ev, post)
            [] ev.a = "CreateOrGet" -> CreateOrGetClauses(T, prev, ev, post)
            [] OTHER -> {C("M:unknown-event")}
 =============================================================================
